@@ -50,3 +50,61 @@ fn vec_extend_ev<'a>(v: &mut Vec<Ev<'a>>, other: Vec<Ev<'a>>)
 fn cowstr_into_owned(v: CowStr<'_>) -> (r: String)
     ensures r@ == v@,
 { unimplemented!() }
+
+// ---- shims for MA::next_key_seed (serde seed / visitor side is opaque) ----
+#[verifier::external_body]
+pub struct KeySeed { _p: () }      // stands for `K: DeserializeSeed<'de>`
+#[verifier::external_body]
+pub struct KeyVal { _p: () }       // stands for `K::Value`
+
+impl MissingFieldLocationGuard {
+    #[verifier::external_body]
+    fn new(location: Location) -> MissingFieldLocationGuard { unimplemented!() }
+    #[verifier::external_body]
+    fn replace_location(&mut self, location: Location) { unimplemented!() }
+}
+
+impl CowFp<'_> {
+    // `&*cow` / `*cow` (Deref)
+    #[verifier::external_body]
+    fn get(&self) -> (r: &KeyFingerprint)
+        ensures *r == self.deref_spec(),
+    { unimplemented!() }
+}
+
+// HashSet<KeyFingerprint> lookups: derived Hash / Eq of KeyFingerprint assumed lawful
+trait AsFp { spec fn as_fp(&self) -> KeyFingerprint; }
+impl AsFp for KeyFingerprint { spec fn as_fp(&self) -> KeyFingerprint { *self } }
+impl<'a> AsFp for CowFp<'a> { spec fn as_fp(&self) -> KeyFingerprint { self.deref_spec() } }
+
+#[verifier::external_body]
+fn seen_contains<T: AsFp>(set: &HashSet<KeyFingerprint>, k: &T) -> (r: bool)
+    ensures r == set@.contains(k.as_fp()),
+{ unimplemented!() }
+#[verifier::external_body]
+fn seen_insert(set: &mut HashSet<KeyFingerprint>, k: KeyFingerprint)
+    ensures final(set)@ == old(set)@.insert(k),
+{ unimplemented!() }
+
+// `fingerprint.stringy_scalar_value().map(|s| s.to_owned())` (only used for the error text)
+#[verifier::external_body]
+fn fp_display_key(k: &KeyFingerprint) -> Option<String> { unimplemented!() }
+
+// `sv.eq_ignore_ascii_case("null")`
+#[verifier::external_body]
+fn string_eq_ignore_case_null(s: &String) -> bool { unimplemented!() }
+#[verifier::external_body]
+fn string_is_tilde(s: &String) -> bool { unimplemented!() }
+
+// `events.drain(vs..ve).collect()`
+#[verifier::external_body]
+fn vec_drain_ev<'a>(v: &mut Vec<Ev<'a>>, a: usize, b: usize) -> (r: Vec<Ev<'a>>)
+    requires a <= b <= old(v)@.len(),
+    ensures r@ == old(v)@.subrange(a as int, b as int), final(v)@ == old(v)@.subrange(0, a as int) + old(v)@.subrange(b as int, old(v)@.len() as int),
+{ unimplemented!() }
+
+// derived `Clone` of Ev (assumed lawful)
+#[verifier::external_body]
+fn ev_clone<'a>(e: &Ev<'a>) -> (r: Ev<'a>)
+    ensures r == *e,
+{ unimplemented!() }
